@@ -38,7 +38,7 @@ def gen(rng, tier):
             'D': np.round(rng.uniform(-1, 1, (a, b)), 1).tolist(),
             'W': np.round(rng.uniform(0.5, 2, (a, b)), 1).tolist(),
             'spell': SPELL[int(rng.integers(len(SPELL)))],
-            'adapt_how': int(rng.integers(3)), 'late_rvar': bool(rng.random() < 0.2)}
+            'adapt_how': int(rng.integers(3)), 'late_rvar': bool(rng.random() < 0.35)}
 
 
 def closed_form(spec):
@@ -70,8 +70,19 @@ def run(spec, ctx, exact=False):
         z = m.rvar(nz)
         y = m.ldr((a, b))
         how = spec['adapt_how']
+        late_done = [not spec['late_rvar']]
+        ncalls = [0]
+        late_at = 1 + (int(Cc.size) % 5)          # the late rvar comes after this many adapt() calls
+
+        def adapted():
+            ncalls[0] += 1
+            if not late_done[0] and ncalls[0] == late_at:
+                m.rvar(2)
+                late_done[0] = True
+
         if mk.all() and how == 0:
             y.adapt(z)
+            adapted()
         else:
             for i in range(a):
                 for j in range(b):
@@ -80,10 +91,12 @@ def run(spec, ctx, exact=False):
                         continue
                     if how == 1 and len(ks) == nz:
                         y[i, j].adapt(z)
+                        adapted()
                     else:
                         for k in ks:
                             y[i, j].adapt(z[k])
-        if spec['late_rvar']:
+                            adapted()
+        if not late_done[0]:
             m.rvar(2)
         lo, hi = np.array(spec.get('lo', [-1.0] * nz)), np.array(spec.get('hi', [1.0] * nz))
         sf = spec.get('set_form', 0)
